@@ -12,6 +12,7 @@ import enum
 import inspect
 import logging
 import math
+import pathlib
 import struct
 import types
 from typing import Any, Callable
@@ -1269,7 +1270,7 @@ def _concrete_py(v: V) -> Any:
         return _NOCONC if c is None else c
     if v is NONE:
         return None
-    if isinstance(v, VConst) and isinstance(v.py, (type, enum.Enum)):
+    if isinstance(v, VConst) and isinstance(v.py, (type, enum.Enum, pathlib.PurePath)):
         return v.py
     return _NOCONC
 
